@@ -517,6 +517,27 @@ struct LcSim : Harness {
     return plan;
   }
 
+  // A crash inside the generator may be a plain program-level defect of the optimizer (C01 territory) rather than
+  // anything the history did.  Decide by experiment: the same program, in a fresh context, with the most ordinary
+  // history (scan, load, link with eager generation) at each optimization level.  If that crashes too, the history is
+  // not to blame and the death is counted as a side finding, not as a verdict on a history property.
+  void reclassify(const Json &plan, ChildEnd &e) override {
+    if (e.cls != "crash" || !plan.has("prog")) return;
+    for (int level = 0; level < 4; level++) {
+      Json p = plan; Json ops = Json::array(); size_t nm = plan.at("prog").at("mods").size();
+      auto push = [&](std::initializer_list<Json> l) { Json o = Json::array(); for (auto &x : l) o.push(x); ops.push(o); };
+      push({"opt", level});
+      for (size_t mi = 0; mi < nm; mi++) { push({"scan", (long long) mi}); push({"load", (long long) mi}); }
+      push({"link", 2, 0});
+      p.set("ops", ops); p["knobs"].erase("reenter"); p["knobs"].set("placement", (int) P_PACKED_FAR);
+      ChildEnd c = run_isolated(*this, p, hang_seconds(), false);
+      if (c.status == "crash") {
+        e.cls = "side_program_level_generator_crash"; e.detail = "the plain history scan/load/link(eager, -O" + std::to_string(level) + ") of the same program crashes too (" + c.sig + "): " + e.detail; e.sig = c.sig;
+        return;
+      }
+    }
+  }
+
   std::vector<Json> simplify(const Json &plan) override {
     std::vector<Json> c;
     // drop whole functions' bodies to a single ret; drop statements
